@@ -145,6 +145,7 @@ def JState.update1 (j : JState) (op : Op) (cur : Obs) : JState :=
   | .cfg n _ _ => if cur.isOk then { n := n, prev := cur, nodes := mkNodeJs n } else { j with prev := cur }
   | .crash i | .restart i =>
     if cur.isOk then { j with prev := cur, nodes := setNodeJ j.nodes i (fun _ => {}) } else { j with prev := cur }
+  | .repair _ _ _ => { j with prev := cur }
   | .install i a _ _ =>
     let committed := j.committed.map (fun r =>
       if fateOf j.prev cur j.n op r == .lostKnown then { r with tainted := true } else r)
